@@ -1485,6 +1485,16 @@ def _build():
                 break
         else:
             raise AssertionError("no root cause for %r" % (p,))
+        p = f["pattern"]
+        if p.get("field") == "parse":
+            # whole-hop failures are keyed on the feature that causes them, not on the exact list of parameter classes
+            p = {k: v for k, v in p.items() if k not in ("typ_classes", "default_kinds", "ret", "doc_kind", "style", "type_annotations", "emit_default_doc")}
+            if p["fmt"] in ("class", "pydantic"):
+                p["has_dict_param"] = True
+            else:
+                p["dotted_code_default"] = True
+                p["emit_default_doc"] = True
+            f = dict(f, pattern=p)
         out.append(f)
     return out
 
